@@ -122,6 +122,13 @@ def run_mat(spec, res):
         elif op == 1:      # new pattern (and possibly new size is not allowed for one instance in ANDES: keep n)
             I, J, V = rand_sparse(rng, n, density, dominant=bool(rng.integers(0, 2)))
             pattern_changed = True
+        elif op == 4 and n >= 3:
+            # new pattern with the same number of entries in every column (rows permuted): the column pointers of the
+            # compressed storage stay as they are, only the row indices move - and with them KLU's block structure
+            perm = rng.permutation(n)
+            I = perm[I]
+            pattern_changed = True
+            res.count("pattern_changes_same_column_counts")
         elif op == 2:      # scaling
             V = V * float(rng.choice([1e-12, 1e-6, 1e6, 1e12]))
             pattern_changed = False
